@@ -1,9 +1,10 @@
 (* C10 correspondence harness: cases written by harness/py/checks/c10.py are evaluated with vm_compute.
    A case = (verb spec, input records, records observed from the scratch-built mlr).  Observed values carry their
    printed text and, when the text is a number, its exact rational value (parsed by the Python side). *)
-From Miller Require Import C10.Model C10.Verbs C10.Verbs2 C10.Verbs3.
+From Miller Require Import C10.Model C10.Verbs C10.Verbs2 C10.Verbs3 C10.Verbs4 C10.Verbs5.
 Open Scope char_scope.
 
+Inductive s1mode := M1End | M1Iter | M1Win (n : nat).
 Inductive vspec :=
 | SCount (gs : option (list bytes)) (only_n : bool) (out : bytes)
 | SUniq (gs : list bytes) (show_counts only_n : bool) (out : bytes)
@@ -25,7 +26,11 @@ Inductive vspec :=
 | SUniqX (xs : list bytes) (show_counts only_n : bool) (out : bytes)
 | SFillEmpty (fill : bytes)
 | STop2 (showfull : bool) (n : nat) (domax : bool) (out : bytes) (fs gs : list bytes)
-| SStepSlwin (wins : list (nat * nat)) (fs gs : list bytes).
+| SStepSlwin (wins : list (nat * nat)) (fs gs : list bytes)
+(* Verbs4.v: stats1 with -f/--fr/--fx, -g/--gr/--gx, end-of-stream / -s / -w n *)
+| SStats1G (interp : bool) (accs : list accreq) (fsl : fsel) (gsl : gsel) (mode : s1mode)
+(* Verbs5.v: stats2, end of stream or -s *)
+| SStats2 (iter : bool) (accs : list s2acc) (fs gs : list bytes).
 
 Definition run_spec (v : vspec) (rs : list record) : list orec :=
   match v with
@@ -33,8 +38,8 @@ Definition run_spec (v : vspec) (rs : list record) : list orec :=
   | SUniq gs c n out => verb_uniq gs c n out rs
   | SCountDistinctU fs => verb_count_distinct_u fs rs
   | SCountSimilar gs out => verb_count_similar gs out rs
-  | SStats1 i accs fs gs => verb_stats1 i accs fs gs rs
-  | SStats1W i accs fs gs n => verb_stats1_w i accs fs gs n rs
+  | SStats1 i accs fs gs => verb_stats1 i (uniq_accs accs) (uniq_names fs) gs rs       (* names given twice are kept once (fix: 354e61d24) *)
+  | SStats1W i accs fs gs n => verb_stats1_w i (uniq_accs accs) (uniq_names fs) gs n rs
   | SAcc i a vs => [[(B "r", run_acc i a vs)]]
   | SPctls i ps vs => let d := sort_vals vs in
                       [map (fun p => (B "p", match d with [] => OVoid | _ => if i then pctl_interp p d else pctl_nonint p d end)) ps]
@@ -50,6 +55,11 @@ Definition run_spec (v : vspec) (rs : list record) : list orec :=
   | SFillEmpty fill => verb_fill_empty fill rs
   | STop2 a n mx out fs gs => verb_top2 a n mx out fs gs rs
   | SStepSlwin wins fs gs => verb_step_slwin wins fs gs rs
+  | SStats1G i accs fsl gsl M1End => verb_stats1g i accs fsl gsl rs
+  | SStats1G i accs fsl gsl M1Iter => verb_stats1g_s i accs fsl gsl rs
+  | SStats1G i accs fsl gsl (M1Win n) => verb_stats1g_w i accs fsl gsl n rs
+  | SStats2 false accs fs gs => verb_stats2 accs fs gs rs
+  | SStats2 true accs fs gs => verb_stats2_s accs fs gs rs
   end.
 
 Definition obsval := (bytes * option Q)%type.
